@@ -40,7 +40,8 @@ TRUSTED = ["modelled not verified: NumPy block kernels' shapes, zarr indexer / c
 # rules cubed follows on purpose coincide with NumPy 2 (NEP 50 weak scalars, sum/prod/cumulative_sum of small ints
 # upcast to the default integer of the same signedness, comparisons -> bool, abs(complex) -> real float); where cubed
 # *declines* (mean/var/std of integers, mixed-kind promotion outside the standard) nothing is compared.
-DTYPE_RULES = "declared == computed == stored; declared == NumPy 2 result dtype (array-API rules coincide); declines not compared"
+DTYPE_RULES = ("declared == computed == stored; declared == NumPy 2 result dtype (array-API rules coincide); declines not compared; "
+               "mean/var/std of bool (outside the standard, cubed keeps bool) not compared with NumPy")
 
 DECLINE = (ValueError, TypeError, NotImplementedError, IndexError)
 MAXC = 64
@@ -514,9 +515,9 @@ def nontrivial_desc(d):
     return any(-(-s // max(1, c)) > 1 for inp in d["inputs"] for s, c in zip(inp["shape"], inp["chunks"]))
 
 
-def corr_programs(ctx, n):
+def corr_programs(ctx, n, kfam=0):
     reqs, items = [], []
-    for p, g in gen_programs(ctx, n, "corr"):
+    for p, g in itertools.chain(gen_programs(ctx, n, "corr"), family_programs(ctx, kfam)):
         d = p.describe()
         try:
             vals, calls = build_traced(p)
@@ -536,11 +537,12 @@ def corr_programs(ctx, n):
             reqs.append(it["request"])
             items.append(it)
         ctx.traces += 1
-    answers = ctx.lean.drive(DRIVER, reqs) if reqs else []
-    for it, ans in zip(items, answers):
-        nb = len(it["coords"])
-        ctx.count({"request": it["request"]}, nontrivial=nb > 1, kind="corr:" + it["fn"])
-        compare_answer(ctx, it, ans, it["case"])
+    def done(answers):
+        for it, ans in zip(items, answers):
+            nb = len(it["coords"])
+            ctx.count({"request": it["request"]}, nontrivial=nb > 1, kind="corr:" + it["fn"])
+            compare_answer(ctx, it, ans, it["case"])
+    return reqs, done
 
 
 # direct calls of the core functions with parameters the array-API layer does not reach ----------------------------
@@ -666,10 +668,11 @@ def direct_cases(ctx, n):
             it["case"] = case
             reqs.append(it["request"])
             items.append(it)
-    answers = ctx.lean.drive(DRIVER, reqs) if reqs else []
-    for it, ans in zip(items, answers):
-        ctx.count({"request": it["request"]}, nontrivial=len(it["coords"]) > 1, kind="corr-direct:" + it["fn"])
-        compare_answer(ctx, it, ans, it["case"])
+    def done(answers):
+        for it, ans in zip(items, answers):
+            ctx.count({"request": it["request"]}, nontrivial=len(it["coords"]) > 1, kind="corr-direct:" + it["fn"])
+            compare_answer(ctx, it, ans, it["case"])
+    return reqs, done
 
 
 def _stack_k(a, axis=None, k=None):
@@ -720,23 +723,45 @@ def corr_reference(ctx):
         e = enc_nats(np.sum(np.zeros(shape), axis=tuple(axes), keepdims=kd).shape)
         reqs.append("reduced|%s|%s|%d" % (enc_nats(shape), enc_nats(axes), kd))
         exp.append(e)
+    from cubed.array_api.manipulation_functions import _array_slices
+    for _ in range(ctx.budget(100, 500)):
+        lens = [rng.choice([0, 1, 2, 3, 5, 9]) for _ in range(rng.randint(1, 5))]
+        tot = sum(lens)
+        a_ = rng.randint(0, tot)
+        b_ = rng.randint(a_, tot)
+        offs = [0]
+        for x in lens:
+            offs.append(offs[-1] + x)
+        got = "/".join("%d,%d,%d" % (i, sl.start, sl.stop) for i, sl in _array_slices(offs, a_, b_)) or "-"
+        reqs.append("aslices|%s|%d|%d" % (enc_nats(lens), a_, b_))
+        exp.append(got)
     from cubed.utils import normalize_chunks
     for _ in range(ctx.budget(100, 500)):
         n, c = rng.randint(0, 40), rng.randint(1, 15)
         reqs.append("reggrid|%d|%d" % (c, n))
         exp.append(enc_nats(normalize_chunks((c,), shape=(n,))[0]))
-    ans = ctx.lean.drive(DRIVER, reqs)
-    for r, e, a in zip(reqs, exp, ans):
-        ctx.count({"request": r}, nontrivial=True, kind="corr-ref:" + r.split("|")[0])
-        if a != e:
-            ctx.disagree("ShapeCalc reference rule (%s) = NumPy / normalize_chunks" % r.split("|")[0], {"request": r}, a, e)
+    def done(ans):
+        for r, e, a in zip(reqs, exp, ans):
+            ctx.count({"request": r}, nontrivial=True, kind="corr-ref:" + r.split("|")[0])
+            if a != e:
+                ctx.disagree("ShapeCalc reference rule (%s) = NumPy / normalize_chunks" % r.split("|")[0], {"request": r}, a, e)
+    return reqs, done
+
+
+def drive_parts(ctx, parts):
+    """one driver invocation for all request batches"""
+    allreqs = [r for reqs, _ in parts for r in reqs]
+    answers = ctx.lean.drive(DRIVER, allreqs) if allreqs else []
+    k = 0
+    for reqs, done in parts:
+        done(answers[k:k + len(reqs)])
+        k += len(reqs)
 
 
 def corr(ctx):
     _quiet()
-    corr_reference(ctx)
-    corr_programs(ctx, ctx.budget(70, 420))
-    direct_cases(ctx, ctx.budget(60, 400))
+    drive_parts(ctx, [corr_reference(ctx), corr_programs(ctx, ctx.budget(25, 300), kfam=ctx.budget(2, 12)),
+                      direct_cases(ctx, ctx.budget(50, 400))])
 
 
 # ----------------------------------------------------------------------------------------------
@@ -844,7 +869,7 @@ def check_program(p, optimize):
             out["meta"].append("%s: declared shape %s, NumPy gives %s" % (what, d[0], tuple(ref[j].shape)))
         if d[1] != r.dtype:
             out["meta"].append("%s: declared dtype %s, computed result has dtype %s" % (what, d[1], r.dtype))
-        if d[1] != ref[j].dtype:
+        if d[1] != ref[j].dtype and not dtype_outside_standard(p, j, ref):
             ins = [str(ref[k].dtype) for k in p.ops[j - ni]["in"]] if j >= ni else []
             out["dtype_dev"].append("%s of %s: declared dtype %s, NumPy gives %s" % (what, ins, d[1], ref[j].dtype))
         if a.size > 0:
@@ -863,6 +888,16 @@ def check_program(p, optimize):
     return out
 
 
+def dtype_outside_standard(p, j, ref):
+    """inputs for which the array-API standard defines no result dtype (NumPy's answer is not a reference there):
+    mean / var / std of a boolean array (cubed keeps bool; declared == computed == stored is still required)."""
+    ni = len(p.inputs)
+    if j < ni:
+        return False
+    o = p.ops[j - ni]
+    return o["op"] in ("mean", "var", "std") and ref[o["in"][0]].dtype.kind == "b"
+
+
 def has_problem(r):
     return bool(r["mismatches"] or r["meta"] or r["dtype_dev"])
 
@@ -877,7 +912,13 @@ def report(ctx, p, optimize, r):
     def still(q):
         rr = check_program(q, optimize)
         return has_problem(rr) and (("block" in k0) == bool(rr["mismatches"]))
-    small = exprgen.shrink(p, still, max_evals=200)
+    # failures fully explained by listed defects get a short shrink, anything else the full budget
+    budget = 200
+    if r["mismatches"] and not r["meta"] and not r["dtype_dev"]:
+        k_pre, rest_pre, _ = attribute(p)
+        if k_pre and not rest_pre:
+            budget = 30
+    small = exprgen.shrink(p, still, max_evals=budget)
     rs = check_program(small, optimize)
     if not has_problem(rs):
         small, rs = p, r
@@ -898,8 +939,26 @@ def report(ctx, p, optimize, r):
             ctx.fail(what, case, key=k)
 
 
-def oracle_programs(ctx, n, tag="oracle"):
-    for p, g in gen_programs(ctx, n, tag):
+def values_wrong(p, optimize):
+    """None, or a message when an output of the program differs from NumPy (used by `search` only)."""
+    import cubed
+    import cubed.array_api as xp
+    import exprgen
+    try:
+        arrs = p.build(xp, _spec())
+        res = cubed.compute(*arrs, optimize_graph=optimize)
+        ref, info = p.numpy(), p.output_info()
+    except Exception:  # noqa: BLE001
+        return None
+    for k, (r, a, i) in enumerate(zip(ref, res, info)):
+        m = exprgen.compare_values(r, a, i)
+        if m:
+            return "output %d: %s" % (k, m)
+    return None
+
+
+def oracle_programs(ctx, n, tag="oracle", programs=None):
+    for p, g in (programs if programs is not None else gen_programs(ctx, n, tag)):
         optimize = ctx.rng.random() < 0.5
         d = p.describe()
         r = check_program(p, optimize)
@@ -952,11 +1011,104 @@ def known_triggers(ctx):
             ctx.fail("declared metadata is not truthful: " + "; ".join((r["meta"] + r["dtype_dev"])[:3]), {"program": d}, key=None)
 
 
+SWEEP_UNARY = ["sum", "prod", "mean", "var", "std", "max", "min", "cumulative_sum", "cumulative_prod", "argmax", "argmin",
+               "all", "any", "count_nonzero", "abs", "negative", "positive", "square", "sign", "sqrt", "exp", "floor", "isnan",
+               "logical_not", "bitwise_invert", "real", "conj"]
+SWEEP_BINARY = ["add", "multiply", "subtract", "divide", "floor_divide", "maximum", "equal", "less", "bitwise_and", "logical_or",
+                "matmul", "vecdot", "pow"]
+
+
+def dtype_sweep(ctx, p_compute):
+    """Declared dtype of every listed function for every input dtype (and dtype pair) against NumPy; where cubed
+    declines (TypeError: outside the array-API standard) nothing is compared; a sample is computed to check
+    declared == computed == stored."""
+    import numpy as np
+
+    import cubed
+    import cubed.array_api as xp
+    import exprgen
+    rng = ctx.rng
+    spec = _spec()
+
+    def arr(dt, salt):
+        return exprgen.make_data((3,), dt, "arange", salt)
+
+    def check(name, xs_np, dts):
+        case = {"function": name, "dtypes": dts, "shape": [3], "chunks": [2]}
+        try:
+            with np.errstate(all="ignore"):
+                if name in ("cumulative_sum", "cumulative_prod"):
+                    ref = getattr(np, name)(*xs_np, axis=0)
+                elif name == "vecdot":
+                    ref = np.vecdot(*xs_np)
+                else:
+                    ref = getattr(np, name)(*xs_np)
+            ref = np.asarray(ref)
+        except Exception:  # noqa: BLE001 - NumPy rejects
+            ctx.dist["dtype-sweep:numpy-rejects"] += 1
+            return
+        try:
+            xs = [xp.asarray(a, chunks=2, spec=spec) for a in xs_np]
+            if name in ("cumulative_sum", "cumulative_prod"):
+                r = getattr(xp, name)(*xs, axis=0)
+            else:
+                r = getattr(xp, name)(*xs)
+        except DECLINE:
+            ctx.dist["dtype-sweep:decline"] += 1
+            return
+        except Exception as e:  # noqa: BLE001
+            ctx.dist["dtype-sweep:build-error:" + type(e).__name__] += 1
+            return
+        ctx.count({"dtype_sweep": case, "declared": str(r.dtype)}, nontrivial=True, kind="dtype-sweep")
+        outside = name in ("mean", "var", "std") and np.dtype(dts[0]).kind == "b"
+        if r.dtype != ref.dtype and not outside:
+            ctx.fail("declared dtype %s of %s(%s), NumPy gives %s" % (r.dtype, name, ", ".join(dts), ref.dtype), case, key=None)
+        if tuple(r.shape) != tuple(ref.shape):
+            ctx.fail("declared shape %s of %s(%s), NumPy gives %s" % (r.shape, name, ", ".join(dts), ref.shape), case, key=None)
+        if rng.random() < p_compute:
+            declared = r.dtype
+            try:
+                v = np.asarray(r.compute())
+            except Exception:  # noqa: BLE001 - execution failures are C17's concern
+                ctx.dist["dtype-sweep:exec-error"] += 1
+                return
+            z = r._zarray.open() if hasattr(r._zarray, "open") else r._zarray
+            if v.dtype != declared or z.dtype != declared:
+                ctx.fail("declared dtype %s of %s(%s) but the computed result has %s and the stored array %s"
+                         % (declared, name, ", ".join(dts), v.dtype, z.dtype), case, key=None)
+
+    for name in SWEEP_UNARY:
+        for dt in exprgen.DTYPES:
+            check(name, [arr(dt, 0)], [dt])
+    for name in SWEEP_BINARY:
+        for dt in exprgen.DTYPES:
+            check(name, [arr(dt, 0), arr(dt, 1)], [dt, dt])
+    for d1 in exprgen.DTYPES:
+        for d2 in exprgen.DTYPES:
+            if d1 != d2:
+                check("add", [arr(d1, 0), arr(d2, 1)], [d1, d2])
+
+
+def family_programs(ctx, k):
+    """single-family programs: every focus family is exercised in every run"""
+    import exprgen
+    fams = ["repeat", "index", "concat", "stack", "unstack", "squeeze", "expand_dims", "permute_dims", "reduce", "argreduce",
+            "cumulative", "rechunk", "qr", "binary", "tile", "roll", "broadcast_to", "matmul", "reshape", "take", "flip"]
+    for f in fams:
+        for _ in range(k):
+            try:
+                yield exprgen.gen_program(ctx.rng, families=[f], max_depth=2), "fam-" + f
+            except RuntimeError:
+                break
+
+
 def oracle(ctx):
     _quiet()
     ctx.notes.append("dtype reference: " + DTYPE_RULES)
     known_triggers(ctx)
-    oracle_programs(ctx, ctx.budget(160, 1100))
+    dtype_sweep(ctx, ctx.budget(0.1, 0.5))
+    oracle_programs(ctx, ctx.budget(60, 700))
+    oracle_programs(ctx, 0, tag="oracle-fam", programs=family_programs(ctx, ctx.budget(3, 20)))
 
 
 def search(ctx):
@@ -980,10 +1132,18 @@ def search(ctx):
             if has_problem(r):
                 report(ctx, p, opt, r)
                 break
+            w = values_wrong(p, opt)
+            if w:
+                # a shape-calculus disagreement that leaves every block/region pair consistent (e.g. fewer output
+                # blocks than input groups) still shows in the values
+                ctx.fail("computed values differ from NumPy for a program whose shape calculus disagrees with the model: " + w,
+                         {"program": prog, "optimize_graph": opt, "disagreement": dis["relation"],
+                          "request": dis["case"].get("request")}, key=None)
+                break
     ctx.rng.seed(ctx.seed + 7919)
     if ctx.lean is not None:
         try:
-            direct_cases(ctx, 150)
+            drive_parts(ctx, [direct_cases(ctx, 150)])
         except Exception as e:  # noqa: BLE001
             ctx.notes.append("search: direct cases failed: " + repr(e)[:200])
     oracle_programs(ctx, ctx.budget(250, 900), tag="search")
